@@ -12,6 +12,7 @@ import (
 	"fmt"
 	"os"
 	"reflect"
+	"sort"
 	"strconv"
 	"strings"
 	"time"
@@ -49,6 +50,8 @@ var leafTypes = []reflect.Type{
 	reflect.TypeOf(""), reflect.TypeOf(false), reflect.TypeOf(int(0)), reflect.TypeOf(int8(0)), reflect.TypeOf(int64(0)),
 	reflect.TypeOf(uint16(0)), reflect.TypeOf(uint(0)), reflect.TypeOf(float64(0)), reflect.TypeOf(time.Duration(0)),
 	reflect.TypeOf(rty.NLevel(0)), reflect.TypeOf(rty.NName("")),
+	// kinds that could "accumulate": both names given is an error for them as well
+	reflect.TypeOf([]string(nil)), reflect.TypeOf([]int(nil)), reflect.TypeOf(map[string]struct{}(nil)),
 }
 
 type target struct {
@@ -62,7 +65,8 @@ type gen struct {
 	r       *coqfmt.Rng
 	src     int
 	next    int
-	shorts  int // pflag shorthands handed out
+	shorts  int             // pflag shorthands handed out
+	ns      map[string]bool // shared alias values used in the current namespace (embedded structs share their parent's)
 	targets []target
 	leaves  [][]string // paths of all leaves (for the independent fields)
 	leafT   []reflect.Type
@@ -72,6 +76,8 @@ type gen struct {
 }
 
 func (g *gen) name() string { g.next++; return fmt.Sprintf("F%d", g.next) }
+
+var sharedAliases = []string{"timeout", "deadline", "legacy", "addr"}
 
 func (g *gen) aliasTags(name string, leaf bool) string {
 	r := g.r
@@ -89,7 +95,16 @@ func (g *gen) aliasTags(name string, leaf bool) string {
 	}
 	var parts []string
 	if base {
-		parts = append(parts, fmt.Sprintf(`dialsalias:"old_%s"`, strings.ToLower(name)))
+		val := "old_" + strings.ToLower(name)
+		if r.Chance(1, 4) {
+			// an everyday alias value; fields of DIFFERENT nested structs may share it
+			// (their full names differ), fields of one namespace may not
+			if c := sharedAliases[r.Intn(len(sharedAliases))]; !g.ns[c] {
+				g.ns[c] = true
+				val = c
+			}
+		}
+		parts = append(parts, fmt.Sprintf(`dialsalias:"%s"`, val))
 	}
 	if r.Chance(1, 3) {
 		parts = append(parts, fmt.Sprintf(`dials:"cur_%s"`, strings.ToLower(name)))
@@ -124,7 +139,10 @@ func (g *gen) strct(depth int, path []string, underAlias bool, collect bool) ref
 		case depth < 3 && x < 30:
 			aliased := !underAlias && r.Chance(1, 3)
 			mark := len(g.leaves)
+			saveNS := g.ns
+			g.ns = map[string]bool{} // a named nested struct opens a new namespace
 			st := g.strct(depth+1, p, underAlias || aliased, collect)
+			g.ns = saveNS
 			t := st
 			if r.Chance(1, 2) {
 				t = reflect.PtrTo(st)
@@ -200,6 +218,42 @@ func (g *gen) strct(depth int, path []string, underAlias bool, collect bool) ref
 
 func genLeaf(r *coqfmt.Rng, t reflect.Type) (reflect.Value, string) {
 	v := reflect.New(t).Elem()
+	switch t.Kind() {
+	case reflect.Slice, reflect.Map:
+		// one to three distinct elements, never empty (an empty list has no text form)
+		n := 1 + r.Intn(3)
+		var texts []string
+		seen := map[string]bool{}
+		for len(texts) < n {
+			e := []string{"p", "q", "rs", "t1", "u"}[r.Intn(5)]
+			if t.Kind() == reflect.Slice && t.Elem().Kind() == reflect.Int {
+				e = strconv.Itoa(1 + r.Intn(90))
+			}
+			if seen[e] {
+				continue
+			}
+			seen[e] = true
+			texts = append(texts, e)
+		}
+		if t.Kind() == reflect.Map {
+			sort.Strings(texts)
+			v.Set(reflect.MakeMap(t))
+			for _, e := range texts {
+				v.SetMapIndex(reflect.ValueOf(e), reflect.ValueOf(struct{}{}))
+			}
+		} else {
+			v.Set(reflect.MakeSlice(t, 0, n))
+			for _, e := range texts {
+				if t.Elem().Kind() == reflect.Int {
+					x, _ := strconv.Atoi(e)
+					v.Set(reflect.Append(v, reflect.ValueOf(x)))
+				} else {
+					v.Set(reflect.Append(v, reflect.ValueOf(e)))
+				}
+			}
+		}
+		return v, strings.Join(texts, ",")
+	}
 	if r.Chance(1, 3) {
 		// the Go zero value, explicitly supplied: false, 0, "", 0s (set, not unset)
 		switch t.Kind() {
@@ -299,6 +353,9 @@ func leafAt(v reflect.Value, path []string) (reflect.Value, bool) {
 		}
 		v = v.Elem()
 	}
+	if (v.Kind() == reflect.Slice || v.Kind() == reflect.Map) && v.IsNil() {
+		return reflect.Value{}, false // slices and maps are not pointerified: nil is unset
+	}
 	return v, true
 }
 
@@ -349,7 +406,7 @@ func safeValue(f func() (reflect.Value, error)) (o xf.Out) {
 // build draws the type and its (at most 1..3) targets from the case state.
 func build(state uint64, src int) (*gen, reflect.Type, *coqfmt.Rng) {
 	r := coqfmt.NewRng(state)
-	g := &gen{r: r, src: src}
+	g := &gen{r: r, src: src, ns: map[string]bool{}}
 	var t0 reflect.Type
 	if src == 4 {
 		g.ez = ezPalette[r.Intn(len(ezPalette))]
@@ -513,9 +570,13 @@ func run(raw json.RawMessage) driver.Result {
 				name = sf.Tag.Get("dials")
 			}
 			args = append(args, dash+name+"="+s.text)
-			p := reflect.New(s.val.Type())
-			p.Elem().Set(s.val)
-			filled.Field(i).Set(p)
+			if filled.Field(i).Kind() == reflect.Ptr {
+				p := reflect.New(s.val.Type())
+				p.Elem().Set(s.val)
+				filled.Field(i).Set(p)
+			} else {
+				filled.Field(i).Set(s.val) // slices, maps
+			}
 		}
 		tmpl := reflect.New(t0).Interface()
 		res = safeValue(func() (reflect.Value, error) {
@@ -717,6 +778,17 @@ func setNestedConv(v reflect.Value, path []string, leaf reflect.Value) bool {
 		v.Set(p)
 		return true
 	}
+	if leaf.Kind() == reflect.Map && v.Kind() == reflect.Slice && leaf.Type().Key() == v.Type().Elem() {
+		// a set behind the set-slice mangler: its elements in a fixed order
+		keys := leaf.MapKeys()
+		sort.Slice(keys, func(i, j int) bool { return keys[i].String() < keys[j].String() })
+		out := reflect.MakeSlice(v.Type(), 0, len(keys))
+		for _, k := range keys {
+			out = reflect.Append(out, k)
+		}
+		v.Set(out)
+		return true
+	}
 	if !leaf.Type().ConvertibleTo(v.Type()) {
 		return false
 	}
@@ -750,7 +822,7 @@ func gen_(r *coqfmt.Rng, n int, tier string) []json.RawMessage {
 func main() {
 	driver.Main(driver.Engine{
 		Prop: "C14", CoqImport: "Dials.Check.C14Check", CoqRun: "run_cases",
-		Rule: "random config types (scalar leaves of 11 kinds incl. durations and named scalars, nested value/pointer structs to depth 3, embedded structs) with dialsalias tags; every supplied value is the Go zero value of its type (false, 0, \"\", 0s) with probability 1/3 (every non-empty subset of {dialsalias, dialsenvalias / dialsflagalias / dialspflagalias} on leaves - incl. ONLY the source-specific alias - each of dials and the source-specific primary tag present or not, dialsdesc; for the pflag source one leaf in three, aliased or not, carries a one-letter dialspflagshort) on random leaf and struct-typed fields at any depth, a leaf below an aliased struct may carry an alias of its own (then outer alias + inner alias is a fourth name, used half of the time), one plain leaf in six carries an alias tag of ANOTHER source only; up to 3 aliased targets per type, ALL 4^k neither/primary/alias/both patterns; other leaves set independently with probability 1/3; each type through one of: env source (with and without prefix), std flag source, pflag source, JSON decoder wrapped with ez's alias/reformat/set-slice manglers, or (four static config types with aliases on leaves, struct-typed, pointer and embedded fields) a JSON config FILE read through the real ez.JSONConfigEnvFlag with Params drawn from DisableAutoSetToSlice x FileFieldNameEncoder in {nil, nil, lower_snake, kebab}, its view compared with the alias-wrapped decoder's result; non-trivial: at least one target and a pattern other than all-neither; distinct = distinct (type state, source, pattern)",
+		Rule: "random config types (leaves of 14 kinds: 11 scalar kinds incl. durations and named scalars, []string, []int, the set map[string]struct{}; alias values partly from a small everyday pool shared between DIFFERENT nested structs; nested value/pointer structs to depth 3, embedded structs) with dialsalias tags; every supplied value is the Go zero value of its type (false, 0, \"\", 0s) with probability 1/3 (every non-empty subset of {dialsalias, dialsenvalias / dialsflagalias / dialspflagalias} on leaves - incl. ONLY the source-specific alias - each of dials and the source-specific primary tag present or not, dialsdesc; for the pflag source one leaf in three, aliased or not, carries a one-letter dialspflagshort) on random leaf and struct-typed fields at any depth, a leaf below an aliased struct may carry an alias of its own (then outer alias + inner alias is a fourth name, used half of the time), one plain leaf in six carries an alias tag of ANOTHER source only; up to 3 aliased targets per type, ALL 4^k neither/primary/alias/both patterns; other leaves set independently with probability 1/3; each type through one of: env source (with and without prefix), std flag source, pflag source, JSON decoder wrapped with ez's alias/reformat/set-slice manglers, or (four static config types with aliases on leaves, struct-typed, pointer and embedded fields) a JSON config FILE read through the real ez.JSONConfigEnvFlag with Params drawn from DisableAutoSetToSlice x FileFieldNameEncoder in {nil, nil, lower_snake, kebab}, its view compared with the alias-wrapped decoder's result; non-trivial: at least one target and a pattern other than all-neither; distinct = distinct (type state, source, pattern)",
 		Gen:  gen_, Run: run,
 	})
 }
